@@ -39,10 +39,12 @@ CMP = {"Eq": lambda a, b: a == b, "Ne": lambda a, b: a != b, "Lt": lambda a, b: 
 
 
 class Folder:
-    def __init__(self, prog, max_depth=5):
+    def __init__(self, prog, max_depth=5, opaque=None):
+        self.opaque = opaque
         self.prog = prog
         self.max_depth = max_depth
         self._paths = {}
+        self._memo = {}
 
     def paths(self, fpath):
         if fpath not in self._paths:
@@ -179,7 +181,24 @@ class Folder:
                 return STD_MODELS[name](self, args)
             if isinstance(name, str) and self.prog.has(name) and depth < self.max_depth:
                 args = [self.ev(a, env, bind, depth) for a in t[2]]
+                if "{closure#" in name.rsplit("::", 1)[-1] and len(args) == 2 and args[1][0] == "agg" and args[1][1] == "tuple":
+                    # Fn::call(&closure, (a, b, ..)): the closure body takes the tuple's components as separate parameters
+                    if self.prog.fn(name)["mir"]["argc"] == 1 + len(args[1][4]):
+                        args = [args[0]] + list(args[1][4])
                 return self.call(name, args, depth + 1)
+            if isinstance(name, str) and not self.prog.has(name) and t[2] and depth < self.max_depth:
+                # a trait method called inside a provided method (unresolved in the generic body): dispatch on the folded receiver's type
+                recv = self.ev(t[2][0], env, bind, depth)
+                r0 = recv[1] if recv[0] == "ref" else recv
+                if r0[0] == "agg" and r0[1] == "adt" and "::" in name:
+                    tr, meth = name.rsplit("::", 1)
+                    cand = "<%s as %s>::%s" % (r0[2], tr, meth)
+                    if self.prog.has(cand):
+                        args = [recv] + [self.ev(a, env, bind, depth) for a in t[2][1:]]
+                        return self.call(cand, args, depth + 1)
+            if isinstance(name, str) and self.opaque is not None and self.opaque(name):
+                # a call the caller of the folder declared symbolic (e.g. the `+` of a generic parameter): kept as a term over folded arguments
+                return ("opaque", name, tuple(self.ev(a, env, bind, depth) for a in t[2]))
             raise Unknown("call " + str(name))
         if k == "upd":
             base = self.ev(t[1], env, bind, depth)
@@ -204,6 +223,28 @@ class Folder:
         raise Unknown(k + " " + pp(t))
 
     def call(self, fpath, args, depth=0, bind=None):
+        if bind is None:
+            try:
+                key = (fpath, tuple(args))
+                hit = self._memo.get(key)
+            except TypeError:
+                key = hit = None
+            if hit is not None:
+                if isinstance(hit, Unknown):
+                    raise hit
+                return hit
+            try:
+                r = self._call(fpath, args, depth, bind)
+            except Unknown as e:
+                if key is not None and depth < self.max_depth - 2:
+                    self._memo[key] = e
+                raise
+            if key is not None:
+                self._memo[key] = r
+            return r
+        return self._call(fpath, args, depth, bind)
+
+    def _call(self, fpath, args, depth=0, bind=None):
         env = {("arg", i + 1): a for i, a in enumerate(args)}
         for p in self.paths(fpath):
             taken = True
@@ -300,6 +341,62 @@ def _const_seq(a):
     if isinstance(a, tuple) and a and a[0] == "const" and isinstance(a[1], tuple):
         return a[1]
     raise Unknown("slice model on a non-constant slice")
+
+
+def _int_seq(a):
+    """python ints of a constant array or an aggregate array of folded integer constants (behind references / unsizing casts)"""
+    n = 0
+    while isinstance(a, tuple) and a and a[0] in ("ref", "cast", "as") and n < 6:
+        a = a[1]
+        n += 1
+    if isinstance(a, tuple) and a and a[0] == "const" and isinstance(a[1], tuple):
+        return [int(x) for x in a[1]]
+    if isinstance(a, tuple) and a and a[0] == "agg" and a[1] == "array" and all(_isc(x) for x in a[4]):
+        return [int(x[1]) for x in a[4]]
+    raise Unknown("slice model on a non-constant slice")
+
+
+def _binary_search(self, args):
+    seq = _int_seq(args[0])
+    k = args[1][1] if args[1][0] == "ref" else args[1]
+    if not _isc(k):
+        raise Unknown("binary_search for a non-constant key")
+    k = int(k[1])
+    if any(seq[i] > seq[i + 1] for i in range(len(seq) - 1)):
+        raise Unknown("binary_search on an unsorted slice")
+    hits = [i for i, v in enumerate(seq) if v == k]
+    if len(hits) == 1:
+        return ("agg", "adt", "std::result::Result", "Ok", (_c(hits[0]),), 0)
+    if hits:
+        raise Unknown("binary_search with several equal elements (unspecified which is returned)")
+    return ("agg", "adt", "std::result::Result", "Err", (_c(sum(1 for v in seq if v < k)),), 1)
+
+
+def _range_agg(r):
+    """a promoted constant range (decoded struct constant) as an aggregate of constants"""
+    if r[0] == "const" and isinstance(r[1], tuple):
+        d = dict(r[1])
+        if "fields" in d:
+            fs = [v for _, v in d["fields"]]
+            if len(fs) >= 2 and all(isinstance(v, int) for v in fs[:2]):
+                return ("agg", "adt", "range", "range", tuple(_c(v) for v in fs), 0)
+    return r
+
+
+def _range_incl_contains(self, args):
+    r = _range_agg(args[0][1] if args[0][0] == "ref" else args[0])
+    x = args[1][1] if args[1][0] == "ref" else args[1]
+    if not (r[0] == "agg" and len(r[4]) >= 2 and _isc(r[4][0]) and _isc(r[4][1]) and _isc(x)):
+        raise Unknown("contains on a non-constant range")
+    return _c(int(r[4][0][1]) <= int(x[1]) <= int(r[4][1][1]))
+
+
+def _range_contains(self, args):
+    r = _range_agg(args[0][1] if args[0][0] == "ref" else args[0])
+    x = args[1][1] if args[1][0] == "ref" else args[1]
+    if not (r[0] == "agg" and len(r[4]) >= 2 and _isc(r[4][0]) and _isc(r[4][1]) and _isc(x)):
+        raise Unknown("contains on a non-constant range")
+    return _c(int(r[4][0][1]) <= int(x[1]) < int(r[4][1][1]))
 
 
 def _slice_len(self, args):
@@ -422,7 +519,42 @@ def _opt_is(which):
     return f
 
 
+def _into_int(self, args):
+    if _isc(args[0]) and isinstance(args[0][1], int):
+        return args[0]          # Into between integer types is the lossless widening
+    raise Unknown("Into::into of a non-integer")
+
+
+def _struct_eq(a, b):
+    """structural equality of two folded values (constants and aggregates of them); Unknown if anything is not folded"""
+    a = a[1] if a[0] == "ref" else a
+    b = b[1] if b[0] == "ref" else b
+    if _isc(a) and _isc(b):
+        return a[1] == b[1]
+    if a[0] == "agg" and b[0] == "agg":
+        if a[1] != b[1] or a[3] != b[3] or len(a[4]) != len(b[4]):
+            return False
+        return all(_struct_eq(x, y) for x, y in zip(a[4], b[4]))
+    raise Unknown("equality of non-folded values")
+
+
+def _eq_model(neg):
+    def f(self, args):
+        r = _struct_eq(args[0], args[1])
+        return _c((not r) if neg else r)
+    return f
+
+
 STD_MODELS = {
+    "<std::option::Option<T> as std::cmp::PartialEq>::eq": _eq_model(False),
+    "<std::option::Option<T> as std::cmp::PartialEq>::ne": _eq_model(True),
+    "<weekday::Weekday as std::cmp::PartialEq>::eq": _eq_model(False),
+    "<weekday::Weekday as std::cmp::PartialEq>::ne": _eq_model(True),
+    "std::ops::RangeInclusive::<Idx>::new": lambda self, args: ("agg", "adt", "std::ops::RangeInclusive", "RangeInclusive", (args[0], args[1], _c(False)), 0),
+    "core::slice::<impl [T]>::binary_search": _binary_search,
+    "std::ops::RangeInclusive::<Idx>::contains": _range_incl_contains,
+    "std::ops::Range::<Idx>::contains": _range_contains,
+    "<T as std::convert::Into<U>>::into": _into_int,
     "<std::result::Result<T, F> as std::ops::FromResidual<std::result::Result<std::convert::Infallible, E>>>::from_residual": _from_residual,
     "std::option::Option::<T>::and_then": _opt_and_then,
     "std::option::Option::<T>::map": _opt_map,
@@ -456,10 +588,40 @@ for _b in (8, 16, 32, 64):
         STD_MODELS[_p + "count_ones"] = _u(_b, lambda v, bits: bin(v % (1 << bits)).count("1"))
         STD_MODELS[_p + "rem_euclid"] = lambda self, args: _c(_ints(args)[0] % abs(_ints(args)[1]))
         STD_MODELS[_p + "div_euclid"] = lambda self, args: _c((_ints(args)[0] - _ints(args)[0] % abs(_ints(args)[1])) // _ints(args)[1])
+        STD_MODELS[_p + "abs"] = (lambda ty: lambda self, args: _c(wrap(abs(_ints(args)[0]), ty)))(_t)
+        STD_MODELS[_p + "unsigned_abs"] = lambda self, args: _c(abs(_ints(args)[0]))
+        STD_MODELS[_p + "signum"] = lambda self, args: _c((_ints(args)[0] > 0) - (_ints(args)[0] < 0))
         STD_MODELS[_p + "checked_add"] = (lambda ty: lambda self, args: _checked(lambda a, b: a + b)(self, args, ty))(_t)
         STD_MODELS[_p + "checked_sub"] = (lambda ty: lambda self, args: _checked(lambda a, b: a - b)(self, args, ty))(_t)
         STD_MODELS[_p + "checked_mul"] = (lambda ty: lambda self, args: _checked(lambda a, b: a * b)(self, args, ty))(_t)
 
+
+def _int_cmp(self, args):
+    a, b = [x[1] if x[0] == "ref" else x for x in args]
+    if not (_isc(a) and _isc(b)):
+        raise Unknown("cmp of non-constants")
+    d = (int(a[1]) > int(b[1])) - (int(a[1]) < int(b[1]))
+    # std::cmp::Ordering is not part of the fact file: the variant index slot carries the discriminant (-1 / 0 / 1) itself
+    return ("agg", "adt", "std::cmp::Ordering", ("Less", "Equal", "Greater")[d + 1], (), d)
+
+
+for _t in _INT_RANGES:
+    STD_MODELS["std::cmp::impls::<impl std::cmp::Ord for %s>::cmp" % _t] = _int_cmp
+
+
+def _int_minmax(pick):
+    def f(self, args):
+        a, b = args[0], args[1]
+        if not (_isc(a) and _isc(b) and isinstance(a[1], int) and isinstance(b[1], int)):
+            raise Unknown("min/max of non-integers")
+        return _c(pick(int(a[1]), int(b[1])))
+    return f
+
+
+for _n in ("std::cmp::Ord::min", "std::cmp::min"):
+    STD_MODELS[_n] = _int_minmax(min)
+for _n in ("std::cmp::Ord::max", "std::cmp::max"):
+    STD_MODELS[_n] = _int_minmax(max)
 
 for _a in _INT_RANGES:
     for _b in _INT_RANGES:
@@ -478,6 +640,8 @@ def show(v):
         return tuple(show(x) for x in v[4])
     if v[0] == "ref":
         return show(v[1])
+    if v[0] == "opaque":
+        return ("opaque", v[1]) + tuple(show(x) for x in v[2])
     return pp(v)
 
 
